@@ -282,3 +282,5 @@ def run(ctx, chk, tier):
     chk.assumptions = ["axis-complement identities are decided only through the representatives of the default axes"]
     structural(ctx, chk)
     numeric(ctx, chk, tier)
+    from . import c10
+    c10.purity(ctx, chk, only=("Scores.auc",), strict=False)
